@@ -23,6 +23,9 @@ import YashModel.Executor.Termination
 import YashModel.Executor.Values
 import YashModel.Executor.Tables
 import YashModel.Executor.Nested
+import YashModel.Executor.NestedFifo
+import YashModel.Executor.NestedLive
+import YashModel.Executor.RcProj
 namespace YashModel.Executor
 
 /-- a state the executor can be in: `n` steps into the run of some task system -/
@@ -721,5 +724,214 @@ theorem recursion_guard (d : Nat) (s : NState) (t : Nat) :
 
 open Nested in
 example : (1 : Nat) ∈ ({ stack := [2, 1, 0] } : NState).stack := by decide
+
+/-! ### wave 3 -/
+
+open Nested in
+/-- ★ "lets no woken task be starved by others that keep re-waking themselves", with `Executor::step` also called
+    from INSIDE polls (the earlier rounds proved the FIFO bound only for futures that do not nest): between any
+    two step boundaries of any nested-step system, the tasks popped meanwhile — by top-level and by nested steps
+    alike, each `Task::poll` call (future entered, no-op on an emptied slot, recursion guard) being one pop —
+    followed by the queue now, are the queue then followed by what was pushed.  So the task at position `k` of
+    the queue is exactly the `k+1`-th task popped from then on, whoever pops and whatever the futures do in
+    between; until then it sits at position `k - pops`; and the check the driver prints per step holds. -/
+theorem nested_fifo (scripts : List NScript) (n m : Nat) :
+    let s := nStepN n (nInit scripts)
+    let s' := nStepN m s
+    (∃ evs L, s'.log = s.log ++ evs ∧ s.queue ++ L = popsOf evs ++ s'.queue) ∧
+    (∀ k t, s.queue[k]? = some t → ∃ evs, s'.log = s.log ++ evs ∧
+      ((popsOf evs)[k]? = some t ∨
+       ((popsOf evs).length ≤ k ∧ s'.queue[k - (popsOf evs).length]? = some t))) ∧
+    nFifoB s s' = true := by
+  intro s s'
+  have h : Fifo s s' := fifo_stepN m (ntop_stepN n (ntop_init scripts))
+  exact ⟨h, fun k t hk => nfifo_position h k t hk, nFifoB_of h⟩
+
+open Nested in
+/-- task 0 steps twice from inside its poll and yields: tasks 1, 2 are popped in queue order inside that poll,
+    task 3 (position 3) is the 4th task popped -/
+example : let s := nInit [[.nest, .nest, .yield], [.yield], [.yield], []]
+    popsOf ((nStepN 2 s).log.drop s.log.length) = [0, 1, 2, 3] ∧ (nStepN 2 s).queue = [1, 2, 0] := by decide
+
+open Rc in
+/-- ★ The reference counting of `Rc<Task>` that waker.rs implements by hand (mechanism "reference-counted raw
+    waker vtable"; until wave 3 "outside the model", only observed through Drop probes): `RcModel.lean`
+    transcribes the four vtable entries, `into_waker`, `Task::wake(self: Rc<Self>)`, the `Rc::clone` of
+    `Task::poll`, the local handle of `Executor::step` and `Rc::new` of `enqueue*`, and runs them beside the task
+    system.  (1) The counted run IS the run of Model.lean: after every operation sequence of the `v` leg its task
+    system and "executor dropped" flag are those of `xRunAll` — so all theorems above are about it.  (2) After
+    every operation sequence, as long as the ghost flag of the instrumentation is clear (no `Waker` that does not
+    exist was consumed — Rust's ownership rules; the driver checks the flag on every case): the strong count of
+    every task is exactly (its entries in the wake queue) + (live `Waker`s of it) + (local handles), and no count
+    was ever decremented at zero — no use after free, no double free, no leak of a unit. -/
+theorem rc_counting (sticky : Bool) (scripts : List Script) (roots : Nat) (ops : List XOp) :
+    let r := rRunAll (rInit sticky scripts roots) ops
+    let x := xRunAll { s := init sticky scripts roots } ops
+    (r.s = x.s ∧ r.dead = x.dead) ∧
+    (r.gunder = false →
+      (∀ t, r.strong t = r.s.queue.count t + r.wk t + r.loc t) ∧ r.under = false ∧
+      (∀ t, r.s.ntasks ≤ t → r.wk t = 0 ∧ r.loc t = 0)) := by
+  intro r x
+  refine ⟨?_, ?_⟩
+  · have h0 : Same (rInit sticky scripts roots) { s := init sticky scripts roots } :=
+      ⟨(rInit_p sticky scripts roots).1, (rInit_p sticky scripts roots).2⟩
+    exact same_rRunAll ops _ _ h0 (xinv_init sticky scripts roots)
+  · intro hg
+    have h1 : Pres (rInit sticky scripts roots) r := pres_rRunAll ops _
+    have h0 : Pres ({ s := { pool := scripts.drop roots, sticky := sticky } } : RState) (rInit sticky scripts roots) :=
+      pres_rSpawnRoots _ _
+    obtain ⟨_, _, f⟩ := (h0.trans h1) hg
+    have hb := f (balU_start sticky (scripts.drop roots))
+    exact ⟨hb.bal, hb.nounder, fun t ht => ⟨(hb.fresh t ht).1, (hb.fresh t ht).2.1⟩⟩
+
+open Rc in
+/-- a run with by-reference wakes of a queued task, a cloned waker woken by value, a dropped waker, the executor
+    dropped and a wake-up afterwards: flag clear, task 0 still has one unit (the waker left in the channel) -/
+example : let r := rRunAll (rInit true [[.wait 0, .yield], [.wait 0]] 2) [.step, .step, .byRef 0 0, .byRef 0 0, .clone 0 1, .wake 0 2, .rus, .drop 0 0, .dropExec, .wake 0 0]
+    r.gunder = false ∧ r.under = false ∧ r.strong 0 = 1 ∧ r.wk 0 = 1 ∧ r.s.queue = [] := by decide
+
+open Rc in
+/-- ★ The vtable entries one by one, from ANY state in which the caller really holds what it passes (a live
+    `Waker` of `t`: `wk t > 0`) and the accounting identity holds: `clone` adds one unit and one waker; `drop`
+    removes one of each; `wake` consumes the waker and either moves its unit into the queue (not queued, executor
+    alive: queue grows by `t` at the back, count unchanged) or gives it back (already queued or executor gone:
+    count - 1, queue unchanged); `wake_by_ref` leaves the waker alive and adds a unit exactly when the task gets
+    queued.  In all four the identity still holds afterwards and nothing was decremented at zero. -/
+theorem vtable_accounting (r : RState) (t : Nat) (hb : BalU r) (hg : r.gunder = false) (hw : 0 < r.wk t) :
+    (BalU (vtClone r t) ∧ (vtClone r t).strong t = r.strong t + 1 ∧ (vtClone r t).wk t = r.wk t + 1) ∧
+    (BalU (vtDrop r t) ∧ (vtDrop r t).strong t + 1 = r.strong t ∧ (vtDrop r t).wk t + 1 = r.wk t) ∧
+    (BalU (vtWake r t) ∧ (vtWake r t).wk t + 1 = r.wk t ∧
+      (vtWake r t).strong t + (if r.dead = false ∧ t ∉ r.s.queue then 0 else 1) = r.strong t ∧
+      (vtWake r t).s.queue = (if r.dead = false then enq r.s.queue t else r.s.queue)) ∧
+    (BalU (vtWakeByRef r t) ∧ (vtWakeByRef r t).wk t = r.wk t ∧
+      (vtWakeByRef r t).strong t = r.strong t + (if r.dead = false ∧ t ∉ r.s.queue then 1 else 0) ∧
+      (vtWakeByRef r t).s.queue = (if r.dead = false then enq r.s.queue t else r.s.queue)) :=
+  vtable_steps r t hb hg hw
+
+open Rc in
+example : BalU (rStepN 1 (rInit false [[.wait 0]] 1)) ∧ 0 < (rStepN 1 (rInit false [[.wait 0]] 1)).wk 0 := by
+  have h := rc_counting false [[.wait 0]] 1 [.step]
+  obtain ⟨_, h2⟩ := h
+  obtain ⟨a, b, c⟩ := h2 (by decide)
+  refine ⟨⟨a, b, fun t ht => ⟨(c t ht).1, (c t ht).2, ?_⟩⟩, by decide⟩
+  show t ∉ (rStepN 1 (rInit false [[.wait 0]] 1)).s.queue
+  have : (rStepN 1 (rInit false [[.wait 0]] 1)).s.queue = [] := by decide
+  rw [this]; simp
+
+open YashModel.Generated.ExecutorTables Rc in
+/-- ★ The vtable entries of `RcModel.lean` ARE the operations re-extracted from waker.rs on every run
+    (`tools/tables/executor.py`: per slot of `RawWakerVTable::new(clone, wake, wake_by_ref, drop)` the sequence
+    of `Rc::increment_strong_count` / `decrement_strong_count` / `Rc::from_raw(data).wake()` / `RawWaker::new`
+    of the function sitting in that slot) — a missing or doubled increment, a decrement in `wake_by_ref`, two
+    functions swapped in the table break this theorem, not only the Drop probes of the run. -/
+theorem vtable_tables_agree (r : RState) (t : Nat) :
+    vtBy false vtCloneOps r t = vtClone r t ∧ vtBy true vtWakeOps r t = vtWake r t ∧
+    vtBy false vtWakeByRefOps r t = vtWakeByRef r t ∧ vtBy true vtDropOps r t = vtDrop r t := by
+  refine ⟨rfl, rfl, rfl, ?_⟩
+  show decStrong (wkDown r t) t = wkDown (decStrong r t) t
+  unfold decStrong wkDown
+  by_cases h1 : r.wk t = 0 <;> by_cases h2 : r.strong t = 0 <;> simp [h1, h2]
+
+open YashModel.Generated.ExecutorTables in
+/-- ★ `Task::poll` and `run_until_stalled` of the model rest on facts re-extracted from task.rs / executor.rs on
+    every run (mechanism "future slot emptied on completion so later polls are no-ops"): an emptied slot
+    returns the extracted value without polling, the slot is emptied exactly on `Ready` and that readiness is
+    returned (`poll` = `pollWith` at the extracted values), the slot is borrowed with
+    `try_borrow_mut().expect(..)` (the recursion guard `nPoll` models), and `run_until_stalled` counts exactly
+    the `Some(true)` steps until `None`. -/
+theorem poll_tables_agree :
+    (∀ s t, poll s t = pollWith pollEmptyReturns pollEmptiesOnReady s t) ∧
+    pollGuards = true ∧
+    (∀ n s c, runUntilStalled n s c = rusWith rusCountsTrue n s c) := by
+  refine ⟨?_, rfl, ?_⟩
+  · intro s t
+    unfold poll pollWith pollDone
+    cases s.fut t with
+    | none => rfl
+    | some acts =>
+      simp only []
+      cases (runActs t acts (logEv s (.poll t))).2 <;> rfl
+  · intro n
+    induction n with
+    | zero => intro s c; rfl
+    | succ n ih =>
+      intro s c
+      simp only [runUntilStalled, rusWith]
+      cases step s with
+      | none => rfl
+      | some r => simp only [rusCountsTrue, Bool.and_true]; exact ih _ _
+
+open Nested in
+/-- ★ "polls a task again whenever it has been woken … never loses a wake-up … when the run loop stalls every
+    unfinished task is genuinely waiting", with `Executor::step` also called from inside polls (any depth, any
+    cross-wake-ups): as long as the recursion guard has not panicked, at every top-level step boundary every
+    unfinished task is in the wake queue (these test futures return `Pending` only after waking themselves, so
+    nothing else can be waited for) — hence when the run loop stalls (`step` = `None`: empty queue) EVERY task
+    has completed; and during a poll every unfinished task is queued or is one of the polls in progress. -/
+theorem nested_no_lost (scripts : List NScript) (n : Nat) :
+    let s := nStepN n (nInit scripts)
+    s.panicked = false →
+      (∀ x, x < s.ntasks → (s.fut x).isSome = true → x ∈ s.queue) ∧
+      (s.queue = [] → ∀ x, x < s.ntasks → s.fut x = none) ∧
+      s.ntasks = scripts.length ∧ nLiveB s = true := by
+  intro s hp
+  have h : NTopL s := ntopl_stepN n (ntopl_init scripts)
+  have hst : s.stack = [] := h.top.idle hp
+  have hl : ∀ x, x < s.ntasks → (s.fut x).isSome = true → x ∈ s.queue := by
+    intro x hx hf
+    rcases h.live hp x hx hf with h1 | h1
+    · exact h1
+    · rw [hst] at h1; cases h1
+  refine ⟨hl, ?_, ?_, ?_⟩
+  · intro hq x hx
+    cases hf : s.fut x with
+    | none => rfl
+    | some a =>
+      have := hl x hx (by rw [hf]; rfl)
+      rw [hq] at this; cases this
+  rotate_left
+  · unfold nLiveB
+    rw [hp]
+    simp only [Bool.false_or, List.all_eq_true, List.mem_range, Bool.or_eq_true]
+    intro x hx
+    cases hf : s.fut x with
+    | none => left; rfl
+    | some a => right; exact List.contains_iff_mem.mpr (hl x hx (by rw [hf]; rfl))
+  · have key : ∀ (m : Nat) (s0 : NState), NTop s0 → (nStepN m s0).ntasks = s0.ntasks := by
+      intro m
+      induction m with
+      | zero => intro _ _; rfl
+      | succ m ih =>
+        intro s0 h0
+        simp only [nStepN]
+        cases hs : nStep s0 with
+        | none => rfl
+        | some s1 =>
+          rw [ih s1 (ntop_step h0 hs)]
+          unfold nStep at hs
+          split at hs
+          · cases hs
+          · rename_i hpp
+            have hp0 : s0.panicked = false := by
+              cases hx : s0.panicked with
+              | false => rfl
+              | true => exact absurd hx hpp
+            cases hq : s0.queue with
+            | nil => simp [hq] at hs
+            | cons t q =>
+              simp only [hq, Option.some.injEq] at hs
+              subst hs
+              have hnd : (t :: q).Nodup := hq ▸ h0.inv.qn
+              have h1 : NInv { s0 with queue := q } :=
+                ⟨(List.nodup_cons.mp hnd).2, fun x hx => h0.inv.qlt x (by rw [hq]; exact List.mem_cons_of_mem _ hx),
+                 h0.inv.sn, h0.inv.slt, h0.inv.klt, h0.inv.rp, h0.inv.occ, h0.inv.fin, h0.inv.nef, h0.inv.ns⟩
+              exact (nPoll_ok (s0.ntasks + 1) { s0 with queue := q } t h1 (h0.inv.qlt t (by rw [hq]; simp))
+                (by show s0.stack.length + (s0.ntasks + 1) = s0.ntasks + 1; rw [h0.idle hp0]; simp)).2.1
+    exact key n _ (ntop_init scripts)
+
+open Nested in
+/-- three tasks, nested steps and cross-wake-ups, no guard panic: the run stalls after 4 top-level steps with all done -/
+example : let s := nStepN 10 (nInit [[.nest, .yield, .nest], [.wake 0, .yield], [.nest]])
+    s.panicked = false ∧ s.queue = [] ∧ s.fut 0 = none ∧ s.fut 1 = none ∧ s.fut 2 = none := by decide
 
 end YashModel.Executor
